@@ -10,6 +10,8 @@
 
 #include <algorithm>
 #include <fcntl.h>
+#include <sys/syscall.h>
+#include <unistd.h>
 #if defined(__SANITIZE_ADDRESS__)
 #  include <sanitizer/common_interface_defs.h>
 #endif
@@ -20,6 +22,28 @@ namespace c19 {
 bool noregex_name(opentelemetry::nostd::string_view v);
 bool noregex_unit(opentelemetry::nostd::string_view v);
 }  // namespace c19
+
+#if defined(__SANITIZE_ADDRESS__)
+// Exploration runs do not symbolize AddressSanitizer reports: the runtime starts an external symbolizer per
+// report (about half a CPU second for this binary), and the exact-heap-block shape produces one report per
+// input on a tree whose validator reads past the view. A replay (--replay=... on the command line) keeps
+// symbolization. Called by the ASan runtime before main, hence raw system calls and no library functions.
+extern "C" __attribute__((no_sanitize_address, used, visibility("default"))) const char *__asan_default_options() {
+  static char buf[4096];
+  long fd = syscall(SYS_openat, AT_FDCWD, "/proc/self/cmdline", O_RDONLY);
+  if (fd < 0) return "";
+  long n = syscall(SYS_read, fd, buf, sizeof buf - 1);
+  syscall(SYS_close, fd);
+  static const char needle[] = "--replay=";
+  for (long i = 0; i + (long)sizeof needle - 1 <= n; ++i) {
+    bool hit = true;
+    for (size_t j = 0; j + 1 < sizeof needle; ++j)
+      if (buf[i + (long)j] != needle[j]) { hit = false; break; }
+    if (hit) return "";
+  }
+  return "symbolize=0";
+}
+#endif
 
 namespace {
 using namespace c19;
@@ -357,6 +381,11 @@ void run_create(vf::Ctx &c, const Case &k) {
     c.check(s.unit == unit, std::string("C19:") + what + ":stream-unit-differs", "stream unit '" + vfq::printable(s.unit, 48) + vf::sfmt("' (%zu bytes) for ", s.unit.size()) + desc);
     c.check(s.type == (int)kKinds[k.kind].type && s.value_type == (int)kKinds[k.kind].vt && s.desc == "d" && s.scope == "c19|1|", "C19:create:descriptor-differs", "stream " + s.canon() + " for " + desc);
     c.check(s.npoints == 1, "C19:create:measurement-lost", vf::sfmt("%zu points for ", s.npoints) + desc);
+    // no view is registered: the stream carries the default aggregation of the instrument type
+    const sm::InstrumentType ty = kKinds[k.kind].type;
+    const char *want_kind = ty == sm::InstrumentType::kHistogram ? "hist" : ty == sm::InstrumentType::kObservableGauge ? "last" : "sum";
+    c.check((s.kind == "sum-nonmono" ? std::string("sum") : s.kind) == want_kind, std::string("C19:default-aggregation:") + kKinds[k.kind].label,
+            "point kind " + s.kind + " for the view-less " + desc);
   }
   c.state(canon);
   c.outcome(vf::sfmt("%s|%d|%d|%d|", what, (int)t, (int)streams.empty(), k.kind) + (streams.empty() ? std::string() : vfq::printable(streams[0].name, 300) + "|" + vfq::printable(streams[0].unit, 300)));
